@@ -63,6 +63,11 @@ type idxAction struct {
 	// whose point 1000 is the first of the next UTC day: the decoder hands a series over in
 	// chunks of 1000 points, the second chunk lies on a day the first did not touch.
 	Long bool `json:"long,omitempty"`
+	// fail-series / fail-samples: the error class of the failing INSERTs (fakech.ErrClasses;
+	// "" = plain) and how many consecutive INSERTs into the table fail (0 = one). N >= the
+	// retry attempts makes the part fail on EVERY attempt.
+	Err string `json:"err,omitempty"`
+	N   int    `json:"n,omitempty"`
 }
 
 type idxCase struct {
@@ -98,6 +103,10 @@ func genIndexing(rt *rapid.T) idxCase {
 				a.Long = rapid.IntRange(0, 3).Draw(rt, "long") == 2
 			}
 		}
+		if a.Op == "fail-series" || a.Op == "fail-samples" {
+			a.Err = rapid.SampledFrom(fakech.ErrClasses).Draw(rt, "err")
+			a.N = rapid.SampledFrom([]int{1, 2, 1, 3}).Draw(rt, "n")
+		}
 		return a
 	})
 	c.Actions = rapid.SliceOfN(act, 1, 14).Draw(rt, "actions")
@@ -116,7 +125,8 @@ type idxPush struct {
 	id      int
 	samples []idxSample
 	seq     int                      // position in the history
-	status  int                      // what the client saw
+	status  int                      // what the client saw (200 when the handler wrote nothing)
+	writes  int                      // WriteHeader calls: 0 = the handler returned without answering (implicit 200)
 	own     map[uint64][]fakech.Date // series rows the handler submitted for this push (any attempt)
 }
 
@@ -260,7 +270,7 @@ func predIndexing(c idxCase, o *evid.Obs) error {
 	sawFailedSeries, retryAfterFailedSeries, resetThenPush, sawReset := false, false, false, false
 	knownHit := false
 
-	drive := func(p *idxPush) (int, error) {
+	drive := func(p *idxPush) (inssvc.Response, error) {
 		req := idxBuild(p, idxZones[c.TZ])
 		done := make(chan inssvc.Response, 1)
 		go func() { done <- hs.Serve(req) }()
@@ -268,9 +278,9 @@ func predIndexing(c idxCase, o *evid.Obs) error {
 		for {
 			select {
 			case r := <-done:
-				return r.Status, nil
+				return r, nil
 			case <-deadline:
-				return 0, fmt.Errorf("push %d got no answer within 30 s although the database keeps answering", p.id)
+				return inssvc.Response{}, fmt.Errorf("push %d got no answer within 30 s although the database keeps answering", p.id)
 			case <-time.After(150 * time.Microsecond):
 				// the real trigger chain: a samples flush asks for the series flush first; the
 				// series service's own timer (stood in for by PlanFlush) picks up retried parts
@@ -320,6 +330,27 @@ func predIndexing(c idxCase, o *evid.Obs) error {
 			}
 		}
 		for _, p := range ackedPushes {
+			// an acknowledged push - a status 2xx, or no status at all, which the client sees as
+			// 200 - must have every series row it submitted in a successful time_series INSERT
+			for fp, dates := range p.own {
+				for _, d := range dates {
+					in := false
+					for _, sd := range series[fp] {
+						if sd == d {
+							in = true
+						}
+					}
+					if !in {
+						how := fmt.Sprintf("was answered %d", p.status)
+						if p.writes == 0 {
+							how = "got no status from the handler (the client sees an implicit 200 OK)"
+						}
+						return fmt.Errorf("after step %d: push %d (%s) %s, but the series row (fingerprint %d, %s) it submitted is in no successful time_series INSERT "+
+							"(successful dates for the fingerprint: %v): its samples are acknowledged without an index row (time.Local=%s)",
+							step, p.id, p.action.Proto, how, fp, d, series[fp], idxZones[c.TZ])
+					}
+				}
+			}
 			for _, s := range p.samples {
 				var rows []inssvc.Row
 				if !s.prefix {
@@ -417,9 +448,14 @@ func predIndexing(c idxCase, o *evid.Obs) error {
 			}
 			before := len(hs.DB.Calls())
 			subsBefore := len(hs.Rec.Subs())
-			status, err := drive(p)
+			resp, err := drive(p)
 			if err != nil {
 				return err
+			}
+			status := resp.Status
+			p.writes = resp.HeaderWrites
+			if resp.HeaderWrites == 0 {
+				o.Tag("implicit-200(no status written)")
 			}
 			// doParse answers on the first failed part; let the sibling parts' retries finish
 			for dl := time.Now().Add(20 * time.Second); !hs.Rec.Settled(retries) && time.Now().Before(dl); {
@@ -470,10 +506,24 @@ func predIndexing(c idxCase, o *evid.Obs) error {
 			} else {
 				lastFailed = p
 			}
-		case "fail-series":
-			hs.DB.PushFor("time_series", fakech.Step{Kind: fakech.Error, Err: "scripted failure of the series INSERT"})
-		case "fail-samples":
-			hs.DB.PushFor("samples_v3", fakech.Step{Kind: fakech.Error, Err: "scripted failure of the sample INSERT"})
+		case "fail-series", "fail-samples":
+			table, what := "time_series", "series"
+			if a.Op == "fail-samples" {
+				table, what = "samples_v3", "sample"
+			}
+			n := a.N
+			if n < 1 {
+				n = 1
+			}
+			for k := 0; k < n; k++ {
+				hs.DB.PushFor(table, fakech.Step{Kind: fakech.Error, Err: "scripted failure of the " + what + " INSERT", Class: a.Err})
+			}
+			if n >= retries {
+				o.Tag(a.Op + "-on-every-attempt")
+			}
+			if a.Err != "" {
+				o.Tag(a.Op + ":" + a.Err)
+			}
 		case "reset":
 			inssvc.ResetCache(hs.Cache)
 			sawReset = true
